@@ -4,7 +4,8 @@ version gets its OWN candidate list (`getVersionsGreater` of the version resolve
 scan of `Scalibr.Override.pick`, and at most one `PatchRequirement`; then the manifest is re-resolved.
 Re-resolution is the parameter `resolve` (deps.dev Maven resolver + override client): from the
 requirement written per package (`none` = no entry) to the version resolved per package (`none` = not
-in the graph).  A vulnerability record may affect several packages (`aff v p r`).
+in the graph).  A vulnerability record may affect several packages (`aff v p x`).  Versions are
+identifiers with a per-package `rank` (see `Model/Override.lean`).
 -/
 import Scalibr.Model.Override
 namespace Scalibr.OverrideMulti
@@ -12,25 +13,26 @@ open Scalibr.Upgrade Scalibr.Override
 
 structure MU where
   np : Nat
-  vs : Nat → List Nat                 -- versions of package p, sorted (ranks)
+  vs : Nat → List Nat                 -- version identifiers of package p, sorted
+  rank : Nat → Nat → Nat              -- rank p x
   diff : Nat → Nat → Nat → Nat        -- diff p a b
   nv : Nat
-  aff : Nat → Nat → Nat → Bool        -- record v affects package p at rank r
+  aff : Nat → Nat → Nat → Bool        -- record v affects package p at version x
   level : Nat → Nat                   -- UpgradeConfig.Get(p)
 
 abbrev Pins := List (Option Nat)
 abbrev Res := List (Option Nat)
 
 /-- `vkVulns[vk]`: the records (of the vulnerability set) whose subgraphs end in this node -/
-def vulnsAt (u : MU) (p r : Nat) : List Nat := (List.range u.nv).filter (u.aff · p r)
+def vulnsAt (u : MU) (p x : Nat) : List Nat := (List.range u.nv).filter (u.aff · p x)
 
 def cands (u : MU) (p vk : Nat) : List Cand :=
-  (versionsGreater (u.vs p) vk).map fun r => ⟨r, u.diff p vk r, ((vulnsAt u p vk).filter (u.aff · p r)).length⟩
+  (versionsGreater (u.rank p) (u.vs p) vk).map fun x => ⟨x, u.diff p vk x, ((vulnsAt u p vk).filter (u.aff · p x)).length⟩
 
 /-- the body of `for vk, vulnerabilities := range vkVulns` for the node of package `p` resolved at `vk` -/
 def pickP (u : MU) (p vk : Nat) : Option Nat :=
   if (vulnsAt u p vk).isEmpty then none else
-  (pick (u.level p) (cands u p vk) (vulnsAt u p vk).length).map (·.rank)
+  (pick (u.level p) (cands u p vk) (vulnsAt u p vk).length).map (·.ver)
 
 /-- the requirement of package `p` after the round -/
 def stepP (u : MU) (res : Res) (pins : Pins) (p : Nat) : Option Nat :=
@@ -38,18 +40,26 @@ def stepP (u : MU) (res : Res) (pins : Pins) (p : Nat) : Option Nat :=
   | some r => (match pickP u p r with | some b => some b | none => pins.getD p none)
   | none => pins.getD p none
 
-def didPatch (u : MU) (res : Res) : Bool :=
-  (List.range u.np).any fun p => match res.getD p none with
-    | some r => (pickP u p r).isSome
-    | none => false
+def patchedP (u : MU) (res : Res) (p : Nat) : Bool :=
+  match res.getD p none with
+  | some r => (pickP u p r).isSome
+  | none => false
+
+def didPatch (u : MU) (res : Res) : Bool := (List.range u.np).any (patchedP u res)
 
 def round (u : MU) (res : Res) (pins : Pins) : Pins := (List.range u.np).map (stepP u res pins)
 
-/-- the outer `for { … }`: returns the final requirements and the number of rounds that patched something -/
-def loop (u : MU) (resolve : Pins → Res) : Nat → Pins → Nat → Pins × Nat
-  | 0, pins, k => (pins, k)
+structure Out where
+  pins : Pins
+  rounds : Nat
+  done : Bool          -- false = the fuel ran out before a round without a patch (never, see C11_terminates_multi_partial)
+deriving Repr, DecidableEq
+
+/-- the outer `for { … }` -/
+def loop (u : MU) (resolve : Pins → Res) : Nat → Pins → Nat → Out
+  | 0, pins, k => ⟨pins, k, false⟩
   | fuel + 1, pins, k =>
     let res := resolve pins
-    if didPatch u res then loop u resolve fuel (round u res pins) (k + 1) else (pins, k)
+    if didPatch u res then loop u resolve fuel (round u res pins) (k + 1) else ⟨pins, k, true⟩
 
 end Scalibr.OverrideMulti
